@@ -336,6 +336,57 @@ Proof. induction 1; intros; auto. apply IHstar. eapply step_inv; eauto. Qed.
 Lemma star_leaders_mono : forall s s', star s s' -> forall x, In x (leaders s) -> In x (leaders s').
 Proof. induction 1; intros; auto. apply IHstar. eapply step_leaders_mono; eauto. Qed.
 
+(* every recorded vote is a self-vote or is backed by a granted response in flight *)
+Definition Inv8 (s : sys) : Prop :=
+  forall v t c, In (v, t, c) (cast s) -> v = c \/ In (RVR t true v c) (msgs s).
+
+Lemma inv8_init : Inv8 init.
+Proof. intros v t c []. Qed.
+
+Lemma step_inv8 : forall s s', step s s' -> Inv8 s -> Inv8 s'.
+Proof.
+  intros s s' St H. destruct St; intros v0 t0 c0 Hin; cbn [cast msgs] in *.
+  - destruct Hin as [E|Hin]; [injection E as <- <- <-; left; reflexivity|].
+    destruct (H _ _ _ Hin) as [->|Hm]; [left; reflexivity|right; apply in_or_app; right; exact Hm].
+  - subst nd. cbv zeta in *. destruct grant eqn:G.
+    + destruct Hin as [E|Hin].
+      * injection E as <- <- <-. right. left.
+        unfold grant in G. apply andb_prop in G. destruct G as [G _]. apply andb_prop in G. destruct G as [Gt _].
+        apply Nat.eqb_eq in Gt. rewrite <- Gt. reflexivity.
+      * destruct (H _ _ _ Hin) as [->|Hm]; [left; reflexivity|right; right; exact Hm].
+    + destruct (H _ _ _ Hin) as [->|Hm]; [left; reflexivity|right; right; exact Hm].
+  - subst nd. cbv zeta in *. destruct (rl (nodes s i)); try (apply H; exact Hin).
+    destruct (term (nodes s i) <? t); [apply H; exact Hin|].
+    destruct (g && (t =? term (nodes s i)) && negb (existsb (Nat.eqb v) (votes (nodes s i)))); [|apply H; exact Hin].
+    destruct (q <=? length (votes (nodes s i) ++ [v])); cbn [cast msgs] in *; apply H; exact Hin.
+  - apply H. exact Hin.
+  - destruct (H _ _ _ Hin) as [->|Hm]; [left; reflexivity|right; apply in_or_app; right; exact Hm].
+Qed.
+
+Lemma star_inv8 : forall s s', star s s' -> Inv8 s -> Inv8 s'.
+Proof. induction 1; intros; auto. apply IHstar. eapply step_inv8; eauto. Qed.
+
+(* abstract responses in flight only ever come from RequestVote handling *)
+Lemma step_rvr_new : forall s s', step s s' -> forall t g v d, In (RVR t g v d) (msgs s') ->
+  In (RVR t g v d) (msgs s) \/
+  (exists t0 (ok : bool), In (RV t0 d v) (msgs s) /\
+     let nd := bump (nodes s v) t0 in
+     t = term nd /\ g = (Nat.eqb t0 (term nd) && can_vote nd d && ok) /\
+     msgs s' = RVR t g v d :: msgs s).
+Proof.
+  intros s s' St t0 g0 v0 d0 Hin. destruct St; cbn [msgs] in *; try (left; exact Hin).
+  - apply in_app_or in Hin. destruct Hin as [Hin|Hin]; [|left; exact Hin].
+    apply H0 in Hin. destruct Hin; discriminate.
+  - destruct Hin as [E|Hin]; [|left; exact Hin]. right. injection E as <- <- <- <-.
+    exists t, ok. split; [exact H0|]. cbv zeta. repeat split; reflexivity.
+  - subst nd. cbv zeta in *. destruct (rl (nodes s i)); try (left; exact Hin).
+    destruct (term (nodes s i) <? t); [left; exact Hin|].
+    destruct (g && (t =? term (nodes s i)) && negb (existsb (Nat.eqb v) (votes (nodes s i)))); [|left; exact Hin].
+    destruct (q <=? length (votes (nodes s i) ++ [v])); cbn [msgs] in *; left; exact Hin.
+  - apply in_app_or in Hin. destruct Hin as [Hin|Hin]; [|left; exact Hin].
+    apply H in Hin. destruct Hin as [? [? [? ?]]]; discriminate.
+Qed.
+
 Inductive reachable : sys -> Prop :=
 | r_init : reachable init
 | r_step : forall s s', reachable s -> step s s' -> reachable s'.
